@@ -25,6 +25,9 @@ CLAIMS = {
  "C05": dict(cat="model_checking", ref="3 (C05)", technique="TLA+ model ListingLayout.tla of the recorded-layout replay (setup_table/read_table/skip_table for TOUGH2-family listings) model-checked over all table pages up to a length bound; recorded pages of real tables validated by TLC (ListingLayoutTrace.tla); digit-watermarked copies of every shipped file bind each table cell to the printed token it was read from",
    text="TLC checks that replaying the inferred vertical layout visits exactly the printed rows once each and that skipping equals reading (and finds the uniform-internal-header precondition); for every recorded table page of the shipped files TLC re-derives the visited lines from the first result set's page and compares with the lines the real reader consumed and with the page's data rows. Watermarking (two random-digit copies, one value-form copy) identifies for every cell the (line, token) it came from: own row, printed order, no dropped token, trailing blanks zero, key text, zero/negative/3-digit/no-E forms, skip subsets, addressing. Right level: the layout replay is a small positional state machine; the cell relation is bound by observation.",
    note="Line tags of table regions are classified by the harness; cell == fortran_float(token) relies on C16; quick tier samples result sets and rows of very large tables (counts in evidence)."),
+ "C13": dict(cat="model_checking", ref="3 (C13)", technique="TLA+ writer/reader protocol InconFile.tla over typed record streams, one step per record, model-checked by TLC (round trip, second write identical, reader termination; negative configurations for every well-formedness condition); every TLC document instantiated, written, traced at record level, read back and rewritten by the real t2incon",
+   text="TLC explores every well-formed document within bounds (blocks, numbers of variables on both sides of the 4-per-line boundary, every optional-field combination, timing x reset, flavour, num_variables) through write / read / write and checks that the reader inverts the writer, terminates, and that the second stream equals the first; each well-formedness condition is shown necessary by a failing configuration. The same documents are instantiated with concrete values and names and run through the real code with a record-level trace compared with the specified stream, the re-read object compared field by field and the second file byte for byte; shipped files are cycled too.",
+   note="Values compared with Python formatting at the decimals that fit the field (C02); documents limited to MaxBlocks blocks in TLC; shipped files are cycled by the harness without TLC."),
 }
 REASONS_PENDING = "check not built yet in this revision (see DESIGN.md section 6 build order); the specification family applies"
 NA = {
